@@ -56,6 +56,11 @@ def static_checks(cls, path, acc, order):
     if cls.__hash__ is None:
         acc.report(violation("C15", "static", "C15/static/unhashable-class", path, case, "hashable", "__hash__ is None", order))
         return False
+    odd = [f.name for f in dataclasses.fields(cls) if not (f.compare and f.init) or f.hash is False]
+    if odd:
+        acc.report(violation("C15", "static", "C15/static/field-excluded-from-equality-or-hash", path, dict(case, fields=odd),
+                             "every field takes part in == and hash", str(odd), order))
+        return False
     names = [f.name for f in dataclasses.fields(cls)]
     if sorted(vars(cls)["__slots__"]) != sorted(names):
         acc.report(violation("C15", "static", "C15/static/slots-differ-from-fields", path, case, str(names), str(vars(cls)["__slots__"]), order))
@@ -180,6 +185,23 @@ def _task(arg):
     return acc.result()
 
 
+def perturb(v):
+    """A value of the same kind that differs from v (for single-field perturbation)."""
+    if isinstance(v, bool):
+        return not v
+    if isinstance(v, int):
+        return v + 1 if v < 100 else v - 1
+    if isinstance(v, bytes):
+        return v + b"x"
+    if v is None:
+        return b"x"
+    if isinstance(v, tuple):
+        return v[:-1] if v else NotImplemented
+    if isinstance(v, datetime.datetime):
+        return v + datetime.timedelta(milliseconds=1) if v.year < 9999 else v - datetime.timedelta(milliseconds=1)
+    return NotImplemented
+
+
 def record_instances():
     """instances of the four record classes, from the C17 exploration (k<=1) and a read batch"""
     from kio.records.readers import read_batch
@@ -223,6 +245,17 @@ def run_c15(tier):
         x = make()
         if dynamic_checks(x, make, path, {"class": path, "n": n}, acc, (n,), "records"):
             acc.outcome("record class instance: immutable value object")
+        # equality is exactly field-wise: changing any single field gives an unequal instance
+        for f in dataclasses.fields(x):
+            old = getattr(x, f.name)
+            alt = perturb(old)
+            if alt is NotImplemented:
+                continue
+            acc.add("evaluations")
+            y = dataclasses.replace(x, **{f.name: alt})
+            if y == x or not (y != x):
+                acc.report(violation("C15", "equality", "C15/equality/instances-differing-in-one-field-compare-equal", path,
+                                     {"class": path, "field": f.name}, "unequal", f"equal although .{f.name} differs", (n, f.name)))
     run.merge(acc.result())
     c = run.cov
     c["distinct_nontrivial"] = c.get("instances", 0)
